@@ -1073,9 +1073,62 @@ func runCopyKeepsOrder(p *Prog, r *Report) {
 			return true
 		})
 	}
+	// E5.copy-filter — a Copy method that copies a collection element by element keeps every
+	// element: an append / store inside the loop may be guarded by a nil test only (a copy that
+	// drops duplicates, empty or "uninteresting" elements is shorter than the original)
+	for _, fn := range p.Funcs {
+		if fn.Body == nil || fn.Obj == nil || fn.Lit != nil || fname(fn.Obj) != "Copy" {
+			continue
+		}
+		if sig := fn.Obj.Type().(*types.Signature); sig.Recv() == nil {
+			continue
+		}
+		info := fn.Info()
+		ast.Inspect(fn.Body, func(z ast.Node) bool {
+			var body *ast.BlockStmt
+			switch l := z.(type) {
+			case *ast.RangeStmt:
+				body = l.Body
+			case *ast.ForStmt:
+				body = l.Body
+			}
+			if body == nil {
+				return true
+			}
+			ast.Inspect(body, func(k ast.Node) bool {
+				as, ok := k.(*ast.AssignStmt)
+				if !ok || len(as.Lhs) != 1 || len(as.Rhs) != 1 {
+					return true
+				}
+				isStore := false
+				if call, ok := ast.Unparen(as.Rhs[0]).(*ast.CallExpr); ok && isBuiltinCall(info, call, "append") {
+					isStore = true
+				}
+				if _, ok := ast.Unparen(as.Lhs[0]).(*ast.IndexExpr); ok {
+					isStore = true
+				}
+				if !isStore {
+					return true
+				}
+				for _, a := range fn.GuardsAt(as).AllAtoms() {
+					if a == nil || a.E == nil || a.Expanded || !a.E.Pos().IsValid() || a.E.Pos() < body.Pos() || a.E.Pos() > body.End() {
+						continue
+					}
+					if be, ok := ast.Unparen(a.E).(*ast.BinaryExpr); ok && (be.Op == token.EQL || be.Op == token.NEQ) && (isNilIdent(info, be.X) || isNilIdent(info, be.Y)) {
+						continue
+					}
+					r.Add("E5.copy-filter", fn.Name, "element copy under "+short(exprStr(a.E), 50), p.Pos(as), Violated,
+						"a Copy method copies an element only under a condition that is not a nil test ("+exprStr(a.E)+"): the copy can have fewer elements than the original and is then not equal to it", true)
+					return true
+				}
+				return true
+			})
+			return true
+		})
+	}
 	r.Counts["E5.copy-methods-examined-for-order"] = n
 	r.ExpectMin("E5.copy-methods-examined-for-order", n, 20)
-	r.Clauses = append(r.Clauses, "E5.copy-order: no Copy method sorts")
+	r.Clauses = append(r.Clauses, "E5.copy-order: no Copy method sorts; E5.copy-filter: no Copy method copies elements under a condition other than a nil test")
 }
 
 // E11.path-identity — a lang.Path is identified by directory *and* language: per-path data
@@ -1331,4 +1384,114 @@ func enclosingCaseKind(p *Prog, fn *Func, n ast.Node) (kind, tsVar string) {
 		return
 	}
 	return
+}
+
+// E2.derived-key-cache — a memo table filled while ranging over a Go map, keyed by something
+// *derived* from the memoised input (a name, a String(), a formatted text) instead of the
+// input itself: inputs that share the derived key share one verdict — that of whichever the
+// map iteration visited first — so the result differs from run to run.
+func runDerivedKeyCache(p *Prog, r *Report) {
+	n := 0
+	for _, fn := range p.Funcs {
+		if fn.Body == nil || fn.Lit != nil {
+			continue
+		}
+		info := fn.Info()
+		// scopes executed once per element of a map range: the loop bodies and the local
+		// closures called from them
+		var scopes []ast.Node
+		ast.Inspect(fn.Body, func(z ast.Node) bool {
+			rs, ok := z.(*ast.RangeStmt)
+			if !ok {
+				return true
+			}
+			if _, isMap := info.TypeOf(rs.X).Underlying().(*types.Map); !isMap {
+				return true
+			}
+			n++
+			scopes = append(scopes, rs.Body)
+			ast.Inspect(rs.Body, func(k ast.Node) bool {
+				call, ok := k.(*ast.CallExpr)
+				if !ok {
+					return true
+				}
+				if id, ok := ast.Unparen(call.Fun).(*ast.Ident); ok {
+					if o := info.ObjectOf(id); o != nil {
+						if def := fn.SingleDef(o); def != nil {
+							if lit, ok := ast.Unparen(def).(*ast.FuncLit); ok {
+								scopes = append(scopes, lit.Body)
+							}
+						}
+					}
+				}
+				return true
+			})
+			return true
+		})
+		for _, sc := range scopes {
+			// c[k] = v together with a comma-ok read of c[k] in the same scope
+			stores := map[string]*ast.AssignStmt{}
+			reads := map[string]bool{}
+			ast.Inspect(sc, func(k ast.Node) bool {
+				as, ok := k.(*ast.AssignStmt)
+				if !ok {
+					return true
+				}
+				if len(as.Lhs) == 1 && len(as.Rhs) == 1 {
+					if ix, ok := ast.Unparen(as.Lhs[0]).(*ast.IndexExpr); ok {
+						if _, isMap := info.TypeOf(ix.X).Underlying().(*types.Map); isMap && pathOf(info, ix) != "" {
+							stores[pathOf(info, ix)] = as
+						}
+					}
+				}
+				if len(as.Lhs) == 2 && len(as.Rhs) == 1 {
+					if ix, ok := ast.Unparen(as.Rhs[0]).(*ast.IndexExpr); ok {
+						if _, isMap := info.TypeOf(ix.X).Underlying().(*types.Map); isMap && pathOf(info, ix) != "" {
+							reads[pathOf(info, ix)] = true
+						}
+					}
+				}
+				return true
+			})
+			for path, st := range stores {
+				if !reads[path] {
+					continue
+				}
+				ix := ast.Unparen(st.Lhs[0]).(*ast.IndexExpr)
+				// the table lives outside the per-element scope
+				root, _ := pathSteps(ix.X)
+				if root == nil {
+					continue
+				}
+				if o := info.ObjectOf(root); o == nil || (o.Pos() >= sc.Pos() && o.Pos() <= sc.End()) {
+					continue
+				}
+				kid, ok := ast.Unparen(ix.Index).(*ast.Ident)
+				if !ok {
+					continue
+				}
+				ko := info.ObjectOf(kid)
+				var def ast.Expr
+				for _, f := range p.Funcs {
+					if rootFunc(f) == fn || f == fn {
+						if d := f.SingleDef(ko); d != nil {
+							def = d
+						}
+					}
+				}
+				call, isCall := ast.Unparen(def).(*ast.CallExpr)
+				if def == nil || !isCall {
+					continue
+				}
+				if tv, ok := info.Types[call.Fun]; ok && tv.IsType() {
+					continue // a conversion keeps the value
+				}
+				r.Add("E2.derived-key-cache", fn.Name, "memo "+exprStr(ix.X)+" keyed by "+exprStr(def), p.Pos(st), Violated,
+					"a memo table is filled while ranging over a Go map and keyed by "+exprStr(def)+", which is derived from the memoised input rather than being it: inputs that share the key get the verdict of whichever the map iteration visits first", true)
+			}
+		}
+	}
+	r.Counts["E2.map-ranges-examined-for-memo-tables"] = n
+	r.ExpectMin("E2.map-ranges-examined-for-memo-tables", n, 30)
+	r.Clauses = append(r.Clauses, "E2.derived-key-cache: no memo table filled in map iteration order is keyed by a value derived from (rather than equal to) the memoised input")
 }
